@@ -249,7 +249,7 @@ def p_sum(itp, name, args, kw, node, st):
     elif isinstance(axis, Const) and isinstance(axis.v, int):
         sh = list(n.shape)
         if -len(sh) <= axis.v < len(sh):
-            itp.events.append(('reduce', node, name, axis.v % len(sh), tuple(n.shape)))
+            itp.events.append(('reduce', node, name, axis.v % len(sh), tuple(n.shape), itp.cur.qname if itp.cur else ''))
             axn = axis.v % len(sh)
             del sh[axis.v]
             r.shape = tuple(sh)
